@@ -45,6 +45,9 @@ PfConnect(s, ok) == UNCHANGED <<dls, pfs>> /\ Step([op |-> "PfConnect", id |-> s
 PfRemove(s, ty) == pfs' = DropFirst(pfs, s) /\ UNCHANGED dls /\ Step([op |-> "PfRemove", id |-> s, ty |-> ty])
 PfAdd(s, ok) == UNCHANGED <<dls, pfs>> /\ Step([op |-> "PfAdd", id |-> s, ok |-> ok])
 PfClear(ok) == UNCHANGED <<dls, pfs>> /\ Step([op |-> "PfClear", ok |-> ok])
+(* many requests for the session at the same moment (simultaneous check-ins against a queue with or without a task):
+   no table changes; every request is answered and no mutex of the session stays locked *)
+Burst(w, q) == UNCHANGED <<dls, pfs>> /\ Step([op |-> "Burst", width |-> w, queue |-> q])
 Types == {"portfwd", "proxy", "client"}
 Next == \/ \E f \in Ids : \/ \E sz \in Sizes : DlOpen(f, sz) \/ TrList(f, sz)
                           \/ \E n \in {0, 3} : DlWrite(f, n)
@@ -55,6 +58,7 @@ Next == \/ \E f \in Ids : \/ \E sz \in Sizes : DlOpen(f, sz) \/ TrList(f, sz)
                           \/ PfRead(s, "client", 0)
                           \/ \E ok \in BOOLEAN : PfWrite(s, ok) \/ PfConnect(s, ok) \/ PfAdd(s, ok)
         \/ \E ok \in BOOLEAN : PfClear(ok)
+        \/ \E q \in {"none", "one", "alternate"} : Burst(16, q)
 Spec == Init /\ [][Next]_vars
 (* model-level sanity *)
 TypeOK == /\ \A k \in 1..Len(dls) : dls[k].id \in Ids /\ dls[k].size \in Sizes
